@@ -4,9 +4,12 @@ import (
 	"fmt"
 	"os"
 	"sync"
+	"sync/atomic"
 	"time"
 
 	"github.com/alicebob/miniredis/v2"
+	"github.com/alicebob/miniredis/v2/server"
+	"github.com/zeromicro/go-zero/core/limit"
 	"github.com/zeromicro/go-zero/core/stores/redis"
 	"github.com/zeromicro/go-zero/verifshim/vsched"
 )
@@ -17,6 +20,38 @@ type env struct {
 	mr     *miniredis.Miniredis
 	cli    *redis.Redis
 	closed bool
+	// soft fault: every command is answered with an error reply (what mr.SetError does; done by
+	// our own pre-hook because the hook also counts script commands)
+	faulty atomic.Bool
+	// evals counts the script commands (EVALSHA / EVAL) that reach the server. A limiter request
+	// sends at most one; more means the go-redis client re-sent it (it retries up to 3 times
+	// after a read timeout / connection error, e.g. on an overloaded machine), which would
+	// execute a non-idempotent script twice — a harness artefact. Such a history is re-executed
+	// (see stable in main.go).
+	evals  atomic.Int64
+	resent atomic.Bool
+}
+
+func (e *env) hook() {
+	e.mr.Server().SetPreHook(func(c *server.Peer, cmd string, args ...string) bool {
+		if cmd == "EVALSHA" || cmd == "EVAL" {
+			e.evals.Add(1)
+		}
+		if e.faulty.Load() {
+			c.WriteError(faultMsg)
+			return true
+		}
+		return false
+	})
+}
+
+// counted runs one limiter request and notes whether the client re-sent its script command.
+func (e *env) counted(f func()) {
+	n0 := e.evals.Load()
+	f()
+	if e.evals.Load()-n0 > 1 {
+		e.resent.Store(true)
+	}
 }
 
 var (
@@ -37,6 +72,11 @@ func getEnv() *env {
 			panic("cannot reach miniredis")
 		}
 		theEnv = &env{mr: mr, cli: cli}
+		theEnv.hook()
+		// warm-up: load both scripts into the server (first use goes EVALSHA -> NOSCRIPT -> EVAL)
+		limit.NewPeriodLimit(1, 1, cli, "warm-up").Take("x")
+		limit.NewTokenLimiter(1, 1, cli, "warm-up").AllowN(vsched.Epoch, 1)
+		mr.FlushAll()
 	})
 	return theEnv
 }
@@ -44,21 +84,12 @@ func getEnv() *env {
 // reset empties the store, clears any fault and puts miniredis' clock at the epoch.
 func (e *env) reset() {
 	e.hardFault(false)
-	e.mr.SetError("")
+	e.faulty.Store(false)
 	e.mr.FlushAll()
 	e.mr.SetTime(vsched.Epoch)
 }
 
-func (e *env) fault(on bool) {
-	if e.closed {
-		return
-	}
-	if on {
-		e.mr.SetError(faultMsg)
-	} else {
-		e.mr.SetError("")
-	}
-}
+func (e *env) fault(on bool) { e.faulty.Store(on) }
 
 // hardFault closes the server socket (connection refused / EOF instead of an error reply) and
 // restarts it on the same port with its data preserved. go-redis retries such errors with real
@@ -73,6 +104,7 @@ func (e *env) hardFault(on bool) {
 			os.Exit(2)
 		}
 		e.closed = false
+		e.hook()
 		// go-redis caches the last dial error once PoolSize dials have failed and re-probes only
 		// once per (real) second; wait until the client has noticed the restart so that what
 		// follows does not depend on that wall-clock detail of the client library.
